@@ -12,6 +12,27 @@ def make_case(idx, seed, big):
     rng = random.Random(f"c03-{seed}-{idx}")
     logic = LOGICS[idx % len(LOGICS)]
     opts = [":print-success true", ":produce-models true"] + VECTORS[(idx // len(LOGICS)) % len(VECTORS)]
+    if idx % 7 == 6 and logic in ("QF_UFLIA", "QF_UFLRA", "QF_UF"):
+        # numeric (or uninterpreted) variables that occur only under uninterpreted symbols next to ones with arithmetic values:
+        # the model builder must give the former values that keep the asserted distinctions
+        S = "Int" if logic == "QF_UFLIA" else ("Real" if logic == "QF_UFLRA" else "U")
+        N = (lambda k: str(k)) if S == "Int" else (lambda k: f"{k}.0")
+        lines = [f"(set-option {o})" for o in opts] + [f"(set-logic {logic})"] + (["(declare-sort U 0)"] if S == "U" else [])
+        nv = rng.randint(3, 6)
+        vs = [f"v{i}" for i in range(nv)]
+        lines += [f"(declare-fun {v} () {S})" for v in vs] + [f"(declare-fun f ({S}) {S})", f"(declare-fun p ({S}) Bool)", f"(declare-fun g ({S} {S}) {S})"]
+        arith = vs[:rng.randint(1, nv - 1)] if S != "U" else []
+        for v in arith:
+            lo = rng.randint(0, 4)
+            lines.append(f"(assert (>= {v} {N(lo)}))")
+            if rng.random() < 0.7:
+                lines.append(f"(assert (<= {v} {N(lo + rng.randint(0, 3))}))")
+        for _ in range(rng.randint(2, 6)):
+            a, b = rng.sample(vs, 2)
+            lines.append(rng.choice([f"(assert (p {a}))", f"(assert (not (p {b})))", f"(assert (not (= (f {a}) (f {b}))))", f"(assert (not (= {a} {b})))",
+                                     f"(assert (not (= (g {a} {b}) (g {b} {a}))))", f"(assert (= (f {a}) {b}))", f"(assert (or (p {a}) (p {b})))"]))
+        lines += ["(check-sat)", "(get-model)", "(get-value (" + " ".join(f"(p {v})" for v in vs) + " " + " ".join(vs) + "))"]
+        return {"idx": idx, "logic": logic, "options": opts, "script": "\n".join(lines) + "\n"}
     if rng.random() < 0.4 and ":incremental false" not in opts:
         p, script, checks = gen.history(logic, rng, options=opts, big=big, after_check=gen.model_queries)
     else:
